@@ -372,7 +372,22 @@ func main() {
 			return e
 		}})
 	}
-	for _, op := range ops {
+	// The same operations under the global flags (each alone and both): the order of the writes may
+	// depend on them, the invariant does not. Their fault-free logs are histories too. (A bootstrap
+	// over a store that already holds a chain is not among the operations the statement names.)
+	nPlain := len(ops)
+	for _, fl := range []struct {
+		name string
+		f    kmfx.Flags
+	}{{"--overwrite", kmfx.Flags{Overwrite: true}}, {"--keep_going", kmfx.Flags{KeepGoing: true}}, {"--overwrite --keep_going", kmfx.Flags{Overwrite: true, KeepGoing: true}}} {
+		fl := fl
+		ops = append(ops, opSpec{"bootstrap " + fl.name, kmfx.NewWorld(kmfx.MemGcs), func(w *kmfx.World) error { return w.Bootstrap(kmfx.DefaultBootstrap(t0), fl.f, nil) }})
+		ops = append(ops, opSpec{"rotation " + fl.name, ops[1].snap, func(w *kmfx.World) error {
+			_, e := w.Rotate(kmfx.RotateOpts{Now: t0.Add(24 * time.Hour)}, fl.f, nil)
+			return e
+		}})
+	}
+	for oi, op := range ops {
 		// number of writes of the fault-free run
 		probe := op.snap.Clone()
 		probe.Store.Log = nil
@@ -381,6 +396,9 @@ func main() {
 		faultAt := []int{-1}
 		if !strings.Contains(op.name, "refused") {
 			faultAt = nil
+			if oi >= nPlain {
+				faultAt = []int{-1} // the fault-free log of a flagged operation is not among the recorded histories above
+			}
 			for k := 0; k < nw; k++ {
 				faultAt = append(faultAt, k)
 			}
